@@ -294,6 +294,13 @@ func c19Bytes(tier string, seed int64, idx int, scratch string) (c rt.CaseResult
 	for l := 0; l <= 100; l++ {
 		for rep := 0; rep < reps; rep++ {
 			b := make([]byte, l)
+			if rep%8 >= 4 {
+				// the record is a short view of a larger buffer (a store may hand out slices whose
+				// capacity exceeds their length): what lies beyond the length is not part of it
+				back := make([]byte, l+8+rng.Intn(120))
+				rng.Read(back)
+				b = back[:l]
+			}
 			switch rep % 4 {
 			case 0:
 				rng.Read(b)
